@@ -50,8 +50,8 @@ def population(tier, seed):
         per_profile = 14
         per_profile16 = 6
     else:
-        per_profile = 100
-        per_profile16 = 40
+        per_profile = 60
+        per_profile16 = 24
     progs = [minic.flatten_core(trees[i], "c%05d" % i, PLAT) for i in idx]
     ncore = len(progs)
     for j, prof in enumerate(PROFILES):
@@ -59,6 +59,10 @@ def population(tier, seed):
     # the 16 bit platform (spec/p16.xml): every boundary value of int / unsigned int, including wrap-around, is explored
     for j, prof in enumerate(PROFILES):
         progs += minic_gen.generate(seed * 1000 + 100 + j, "p16", prof, per_profile16, "h%d_" % j)
+    # small programs aimed at narrowing stores, loop counters after the loop, writes through aliases / callees
+    ne = (24, 10) if tier == "quick" else (300, 100)
+    progs += minic_gen.edge_programs(seed, PLAT, ne[0], "e0_")
+    progs += minic_gen.edge_programs(seed + 500, "p16", ne[1], "e1_")
     for p in progs:
         p["only"] = []
     return progs, ncore, core_total
